@@ -400,6 +400,9 @@ def analyse(tier, seed, config, cases, counts, crashes, model_ans, count_ans, pr
                 if len(steps_seen) < 64:
                     for s in w[2].split(","):
                         steps_seen[s] += 1
+        elif w[0] == "zkeep":
+            alias["zkeep/" + w[1] + " " + (c.answer or "")] += 1
+            distinct.add((w[0], c.query))
         elif w[0] in ("alias", "prefix"):
             alias[w[0] + (("/" + w[4]) if w[0] == "alias" else "") + " " + " ".join(t for t in (c.answer or "").split() if t.startswith(("eq=", "eeq=", "ill", "upgrade")))] += 1
             distinct.add((w[0], c.query))
@@ -435,7 +438,7 @@ def analyse(tier, seed, config, cases, counts, crashes, model_ans, count_ans, pr
                     f"[{len(g['cases'])} case(s) with this signature]")
         header = [text, f"harness: {HARNESS_SRC} (gc-arena from {_repo()}); tier={tier} seed={seed}",
                   "the body lists the failing case lines: case <target> <chain> <placement> <schedule> <phase> <age> | "
-                  "zst <size> <align> <maxalign> <method> | alias <maxalign> <t1> <t2> <rel> <chain1> <chain2> | prefix <n> <k> | ill <target> <chain> <s|w>",
+                  "zst <size> <align> <maxalign> <method> | alias <maxalign> <t1> <t2> <rel> <chain1> <chain2> | prefix <n> <k> | zkeep <holder> <align> <maxalign> <full|inc> | ill <target> <chain> <s|w>",
                   f"replay: python3 {ROOT}/lib/eng_conv.py replay C19 <this file>"]
         lines = []
         for c, m in cs:
